@@ -272,7 +272,13 @@ def run_job(job, rec):
         sctx = {"selection": True, "optimizer": opt, "cross_val": cv, "kernel": kname, "mean": mname, "n": n, "d": d}
         rec.context = sctx
         np.random.seed(int(rng.integers(2**31)))
-        gp = guarded(GpRegressor, x, y, y_err=err, kernel=kernels[kname](), mean=means[mname](), optimizer=opt, cross_val=cv)
+        extra = {}
+        if opt == "bfgs" and rng.random() < 0.35:
+            # the multi-start optimiser spread over worker processes, with a chosen number of starts
+            extra = {"n_processes": 2, "n_starts": int(rng.choice([2, 5, 12]))}
+            rec.count("selections:multi_process")
+        sctx.update(extra)
+        gp = guarded(GpRegressor, x, y, y_err=err, kernel=kernels[kname](), mean=means[mname](), optimizer=opt, cross_val=cv, **extra)
         rec.count("selections")
         rec.case(digest("select", x, y, opt, cv, kname, mname))
         if isinstance(gp, Raised):
@@ -317,9 +323,17 @@ def run_job(job, rec):
                 for c_ in comps[1:]:
                     out = out + c_
                 return out
+            if user is not None and cp_limits is not None:
+                return ChangePoint(kernels=comps, location_bounds=[cp_limits[0]], width_bounds=[cp_limits[1]])
             return ChangePoint(kernels=comps)
 
-        uctx = {"user_bounds": True, "layout": form, "components": names, "bounded_component": which, "optimizer": opt, "cross_val": cv, "n": n}
+        cp_limits = None
+        if form == "cp" and rng.random() < 0.6:
+            xr = float(x.min()), float(x.max())
+            dx = xr[1] - xr[0]
+            a_ = xr[0] + dx * rng.uniform(0.1, 0.4)
+            cp_limits = ((a_, a_ + dx * rng.uniform(0.1, 0.4)), (dx * 0.02, dx * rng.uniform(0.05, 0.2)))
+        uctx = {"user_bounds": True, "layout": form, "components": names, "bounded_component": which, "optimizer": opt, "cross_val": cv, "n": n, "change_point_limits": cp_limits}
         rec.context = uctx
         np.random.seed(int(rng.integers(2**31)))
         g0 = guarded(GpRegressor, x, y, y_err=err, kernel=assemble(None), optimizer=opt, cross_val=cv)
@@ -352,6 +366,16 @@ def run_job(job, rec):
         adv = [tuple(float(v) for v in b) for b in g1.hp_bounds[a0:a0 + sizes[which]]]
         rec.check(all(abs(a_[0] - u_[0]) <= 1e-12 * (1 + abs(u_[0])) and abs(a_[1] - u_[1]) <= 1e-12 * (1 + abs(u_[1])) for a_, u_ in zip(adv, user)), "user-bounds-not-advertised",
                   lambda: f"{form} of {names}: component {which} was built with hyperpar_bounds={user}; the regressor advertises {adv} for those hyper-parameters", uctx)
+        if cp_limits is not None:
+            # flat layout of a change-point: kernel parameters first, then (location, width)
+            k0 = nm_par + sum(sizes)
+            adv_cp = [tuple(float(v) for v in b) for b in g1.hp_bounds[k0:k0 + 2]]
+            sel_cp = np.asarray(g1.hyperpars, float)[k0:k0 + 2]
+            rec.count("selections:change_point_limits")
+            rec.check(all(abs(a_[0] - u_[0]) <= 1e-12 * (1 + abs(u_[0])) and abs(a_[1] - u_[1]) <= 1e-12 * (1 + abs(u_[1])) for a_, u_ in zip(adv_cp, cp_limits)), "user-bounds-not-advertised",
+                      lambda: f"change-point built with location_bounds={cp_limits[0]}, width_bounds={cp_limits[1]}; the regressor advertises {adv_cp}", uctx)
+            rec.check(all(u_[0] - 1e-9 * (u_[1] - u_[0]) <= v_ <= u_[1] + 1e-9 * (u_[1] - u_[0]) for v_, u_ in zip(sel_cp, cp_limits)), "selected-outside-bounds",
+                      lambda: f"change-point built with location_bounds={cp_limits[0]}, width_bounds={cp_limits[1]}; selected location / width {sel_cp}", uctx)
         sel = np.asarray(g1.hyperpars, float)[a0:a0 + sizes[which]]
         inside = all(u_[0] - 1e-9 * (u_[1] - u_[0]) <= v_ <= u_[1] + 1e-9 * (u_[1] - u_[0]) for v_, u_ in zip(sel, user))
         rec.check(inside, "selected-outside-bounds",
